@@ -991,6 +991,37 @@ func c05Run(c core.Case) core.Result {
 	if c.Fam == "unpost" {
 		return c05UnaryPostfix(c.N[0])
 	}
+	if c.Fam == "rangepair" {
+		// two ranges evaluated one after the other in the same process (and the same execution): same start and
+		// length, opposite directions; same bounds twice - each is what it is alone
+		a, d := c.N[0], c.N[1]
+		list := func(lo, hi int) string {
+			var parts []string
+			if lo <= hi {
+				for i := lo; i <= hi; i++ {
+					parts = append(parts, itoa(i))
+				}
+			} else {
+				for i := lo; i >= hi; i-- {
+					parts = append(parts, itoa(i))
+				}
+			}
+			return strings.Join(parts, ",")
+		}
+		first, second := [2]int{a, a + d}, [2]int{a, a - d}
+		if c.N[2] == 1 {
+			first, second = second, first
+		}
+		sp := func(b [2]int) string { return "(" + itoa(b[0]) + ")..(" + itoa(b[1]) + ")" }
+		src := "{{ (" + sp(first) + ")|j }}|{{ (" + sp(second) + ")|j }}|{{ (" + sp(first) + ")|j }}|{{ (" + sp(second) + ")[" + itoa(d) + "] }}|{{ (" + itoa(second[1]) + ") in (" + sp(second) + ") ? 'y' : 'n' }}"
+		want := list(first[0], first[1]) + "|" + list(second[0], second[1]) + "|" + list(first[0], first[1]) + "|" + itoa(second[1]) + "|y"
+		var log []string
+		out, err, pan := tryExec(c05Env(&log), src, nil)
+		if pan != "" || err != nil || out != want {
+			return core.Violation("value", fmt.Sprintf("%s renders %q (%v %s), want %q", src, out, err, pan, want))
+		}
+		return core.Okay(true, out)
+	}
 	if c.Fam == "ladder" {
 		return c05Ladder(c.N[0], c.N[1], c.N[2])
 	}
@@ -1100,6 +1131,15 @@ func c05Levels(tier string) []core.Level {
 			}
 			for i := 0; i < c05UnaryPostfixN; i++ {
 				emit(core.Case{Fam: "unpost", N: []int{i}})
+			}
+			for a := -3; a <= 7; a++ {
+				for d := 0; d <= 70; d++ {
+					if d > 8 && d != 63 && d != 64 && d != 65 && d != 70 {
+						continue
+					}
+					emit(core.Case{Fam: "rangepair", N: []int{a, d, 0}})
+					emit(core.Case{Fam: "rangepair", N: []int{a, d, 1}})
+				}
 			}
 			for shape := 0; shape < 2; shape++ {
 				for k := 1; k <= 6; k++ {
